@@ -8,7 +8,7 @@ import re
 
 import modelgen
 import render
-from common import BUILD, MachineryError, use_repo
+from common import from_tlc, BUILD, MachineryError, use_repo
 
 _ctx = {}
 
@@ -18,7 +18,7 @@ def ctx():
         y = use_repo()
         _ctx['yatiml'] = y
         with open(os.path.join(BUILD, 'models.json')) as f:
-            cat = json.load(f)
+            cat = json.loads(from_tlc(f.read()))
         _ctx['cat'] = cat
         _ctx['models'] = {m['id']: m for m in cat['models']}
         _ctx['implicit'] = {v: t for v, t in cat['implicit']}
